@@ -42,6 +42,9 @@ pub enum Op {
     /// flow i is busy: 10-25 client datagrams, one every T/8, for longer than T (the other flows
     /// see no traffic meanwhile and must expire on time)
     BusyFlow(u8, u8),
+    /// flows 0, 1 and 2 are used within a few milliseconds of each other and then all stay idle for
+    /// 12 or 13 eighths of T: they expire at the same timer tick
+    IdleTogether(u8),
 }
 
 #[derive(Serialize, Deserialize, Debug, Clone)]
@@ -207,7 +210,15 @@ async fn run_history(c: &Case, shard_tag: u32) -> Verdict {
         client.send.send_data(Bytes::from(rec), false).map_err(|e| e.to_string())
     };
 
-    for (step, op) in c.ops.iter().enumerate() {
+    let ops: Vec<Op> = c
+        .ops
+        .iter()
+        .flat_map(|o| match o {
+            Op::IdleTogether(w) => vec![Op::Send(0), Op::Send(1), Op::Send(2), Op::Wait(12)],
+            o => vec![o.clone()],
+        })
+        .collect();
+    for (step, op) in ops.iter().enumerate() {
         let mux_dead = client.closed.lock().unwrap().clone();
         if let Some(why) = mux_dead {
             return viol(
@@ -353,6 +364,7 @@ async fn run_history(c: &Case, shard_tag: u32) -> Verdict {
                     f.last = Some(Instant::now());
                 }
             }
+            Op::IdleTogether(_) => unreachable!("expanded above"),
             Op::Wait(e) => {
                 let e = 1 + (*e as u64 % 13);
                 tokio::time::sleep(Duration::from_millis(T_MS * e / 8)).await;
@@ -513,6 +525,7 @@ impl Suite for FlowSuite {
             1 => Just(Op::SendClosedPort),
             3 => (0u8..3, 0u8..6, 0u8..2).prop_map(|(i, n, g)| Op::ReplyChain(i, n, g)),
             2 => (0u8..3, 0u8..16).prop_map(|(i, n)| Op::BusyFlow(i, n)),
+            2 => (0u8..2).prop_map(Op::IdleTogether),
         ];
         prop::collection::vec(op, 3..=16).prop_map(|ops| Case { ops }).boxed()
     }
